@@ -234,7 +234,9 @@ func (selector *CoinSelector) SortedSearch() ([]*Utxo, uint64, uint64) {
 			fee, lr = selector.getLossRatio(selection)
 			if lr >= selector.maxP {
 				if txscript.IsPayToScriptHash(u.ScriptPubkey) {
+					// the output is dropped from the selection again, so its value must leave the sum as well
 					selection = selection[:len(selection)-1]
+					sum -= u.Value
 					continue
 				}
 				return nil, 0, 0
